@@ -35,6 +35,19 @@ func errClass(err error) string {
 	return s
 }
 
+// cutWriter accepts `left` bytes and fails afterwards, like a link that breaks in the middle of a bundle.
+type cutWriter struct{ left int }
+
+func (w *cutWriter) Write(p []byte) (int, error) {
+	if len(p) <= w.left {
+		w.left -= len(p)
+		return len(p), nil
+	}
+	n := w.left
+	w.left = 0
+	return n, fmt.Errorf("link broke")
+}
+
 func serialise(b *bpv7.Bundle) (out []byte, err error) {
 	defer func() {
 		if p := recover(); p != nil {
@@ -334,6 +347,53 @@ func TestCheck(t *testing.T) {
 				r.Violation("c01.reference-encoding-rejected", "the parser rejects an independently encoded valid bundle",
 					map[string]interface{}{"bundle": m, "bytes": hx(x)})
 			}
+		})
+
+		// serialisations that fail midway (the link breaks after k bytes) must not influence later ones: the same value
+		// serialises to the same bytes before and after, and the parser accepts them
+		r.Group("failing-writer", r.Pick(400, 6000), func(i int, rng *report.Rand) {
+			o := opts
+			o.MaxPayload = 120
+			m := model.GenBundle(rng, o)
+			if m.MapEntries() > 1 {
+				return
+			}
+			rb := m.ToBpv7()
+			b1, err := serialise(&rb)
+			if err != nil {
+				return
+			}
+			cuts := []int{}
+			if len(b1) <= 160 {
+				for k := 0; k < len(b1); k++ {
+					cuts = append(cuts, k)
+				}
+			} else {
+				for k := 0; k < 48; k++ {
+					cuts = append(cuts, rng.Intn(len(b1)))
+				}
+			}
+			for _, k := range cuts {
+				fb := m.ToBpv7()
+				if werr := fb.WriteBundle(&cutWriter{left: k}); werr == nil {
+					r.Violation("c01.write-error-swallowed", fmt.Sprintf("WriteBundle reported success although the writer failed after %d of %d bytes", k, len(b1)), map[string]interface{}{"bundle": m})
+					return
+				}
+				r.Count("failing_writer.aborted_serialisations", 1)
+				rb2 := m.ToBpv7()
+				b2, err := serialise(&rb2)
+				if err != nil || !bytes.Equal(b1, b2) {
+					r.Violation("c01.nondeterministic:after-failed-write", fmt.Sprintf("after a serialisation that was aborted by a write error at byte %d the same value serialises differently (err=%v)", k, err),
+						map[string]interface{}{"bundle": m, "before": hx(b1), "after": hx(b2)})
+					return
+				}
+				r.Evals(1)
+			}
+			if _, err := parse(b1); err != nil {
+				r.Violation("c01.parse-own-output:"+errClass(err), "parser rejects the serialiser's output: "+err.Error(), map[string]interface{}{"bundle": m, "bytes": hx(b1)})
+				return
+			}
+			r.Nontrivial("fw", b1)
 		})
 
 		// structure-aware mutants
